@@ -43,6 +43,7 @@ def run(ctx):
     # update-time behaviour through the public API (specific operator) and '*' behaviour at resolution
     step = 1 if ctx.tier == "thorough" else 7
     n_upd = 0
+    q_per_op = {}
     q_long = quantizer.Quantizer(fr.model_bytes())   # ONE object whose '*' rule is replaced again and again (verdicts must not be remembered)
     for i, ((a, o, d), r) in enumerate(zip(triples, outs)):
         if r[0] == "ctor" or (i % step and r != ("ok", True)):
@@ -78,6 +79,17 @@ def run(ctx):
         if sel_l != (r == ("ok", True)):
             ctx.fail("'*' rule selected for an unsupported pair (or skipped for a supported one) on an object whose '*' rule was replaced after use",
                      {"alg": a, "op": o, "cfg": d, "selected": sel_l, "history": "the same Quantizer received and resolved other '*' rules before"}, "star-vs-check-after-replacement")
+        # an accepted update for a specific operator REPLACES whatever rule that operator had under the regex (other algorithm included):
+        # what resolution then returns is exactly the accepted (algorithm, config)
+        if upd:
+            ql = q_per_op.setdefault(o, quantizer.Quantizer(fr.model_bytes()))
+            ql.update_quantization_recipe(".*", o, cfg, a)
+            alg_s, cfg_s = ql._recipe_manager.get_quantization_configs(o, "x;")
+            if str(getattr(alg_s, "value", alg_s)) != a or cfg_s != cfg:
+                ctx.fail("after an accepted update for a specific operator, resolution returns another (algorithm, config) than the accepted one "
+                         "(the operator's earlier rule under this regex, set on the same object, shines through)",
+                         {"alg": a, "op": o, "cfg": d, "resolved_alg": str(getattr(alg_s, "value", alg_s)), "history": "same Quantizer, same regex and operator updated before"},
+                         "accepted-update-not-in-force")
         ctx.tag("accepted" if upd else "refused")
     ctx.extra["update_and_star_checked"] = n_upd
     runtime_half(ctx, drv, accepted)
